@@ -13,7 +13,7 @@
    [calc now bt principal rate] is rewards.CalculationOfRewards (Model/Accrual.v), an argument as in
    Model/AccrualSites.v.  Times are Unix seconds, Dec values 10^18-scaled integers.
    GHOST fields (not in the store, they define the property): [pv_cov] the time up to which the vault has
-   been settled, [pv_taint] the class kf_C18_2, [ps_tchg] the time since which the fee in force has had its
+   been settled, [ps_tchg] the time since which the fee in force has had its
    current value, [ps_intr] a sweep was cut short by an error of CalculationOfRewards.
    Definitions only. *)
 From Comdex Require Import Lib.Base Lib.DecArith Model.AccrualSites.
@@ -26,8 +26,7 @@ Record pvault := mkPV {
   pv_intacc : Z;             (* Vault.InterestAccumulated *)
   pv_tracker : option Z;     (* VaultInterestTracker.InterestAccumulated *)
   pv_bh : Z; pv_bt : Z;      (* Vault.BlockHeight, Vault.BlockTime *)
-  pv_cov : Z;                (* ghost *)
-  pv_taint : bool }.         (* ghost *)
+  pv_cov : Z }.              (* ghost *)
 
 Record pstate := mkPS {
   ps_now : Z; ps_h : Z;      (* ctx.BlockTime().Unix(), ctx.BlockHeight() *)
@@ -50,7 +49,10 @@ Inductive pop : Type :=
 | OTouch (v : nat) (delta : Z) (* MsgDeposit / MsgWithdraw (delta = 0), MsgDraw (delta = the amount drawn) *)
 | OSetFee (f : Z).           (* WasmUpdatePairsVault *)
 
-Definition eff_bt (s : pstate) (v : pvault) : Z := if pv_bh v =? 0 then ps_pbt s else pv_bt v.
+(* the start of the accrual period: the pair's stamp when the vault has height 0 or carries an OLDER stamp
+   of its own (repair of C18-F2: an owner message stamps the vault even while the fee is zero) *)
+Definition eff_bt (s : pstate) (v : pvault) : Z :=
+  if (pv_bh v =? 0) || (pv_bt v <? ps_pbt s) then ps_pbt s else pv_bt v.
 
 Definition site_of (s : pstate) (v : pvault) : vault_site :=
   mkVS (ps_wl s) true (ps_fee s) (ps_stable s) (ps_pbt s) (pv_bh v) (pv_bt v)
@@ -71,7 +73,7 @@ Definition calc_vault (calc : Z -> Z -> Z -> Z -> outcome Z) (s : pstate) (i : n
   | Err c => Err c
   | Ok Untouched => Ok (v, [])
   | Ok (Updated x p t' r') =>
-      Ok (mkPV (pv_debt v) r' (Some t') (ps_h s) (ps_now s) (ps_now s) false,
+      Ok (mkPV (pv_debt v) r' (Some t') (ps_h s) (ps_now s) (ps_now s),
           [mkCh (Z.of_nat i) v (eff_bt s v) (pv_debt v + pv_intacc v) (ps_fee s) x])
   end.
 
@@ -91,17 +93,11 @@ Fixpoint sweep (calc : Z -> Z -> Z -> Z -> outcome Z) (now h lsr cbt : Z) (chang
           match sweep calc now h lsr cbt change_types (i + 1) tl with
           | None => None
           | Some (tl', cs, intr) =>
-              Some (mkPV (pv_debt v) r' (Some t') (if change_types then h else 0) now now false :: tl',
-                    mkCh i v (if pv_bh v =? 0 then cbt else pv_bt v) (pv_debt v) lsr x :: cs, intr)
+              Some (mkPV (pv_debt v) r' (Some t') (if change_types then h else 0) now now :: tl',
+                    mkCh i v (if (pv_bh v =? 0) || (pv_bt v <? cbt) then cbt else pv_bt v) (pv_debt v) lsr x :: cs, intr)
           end
       end
   end.
-
-(* zero -> non-zero: no vault is visited.  A vault that carries its own stamp from the fee-less period
-   keeps it: class kf_C18_2 *)
-Definition taint_vault (now : Z) (v : pvault) : pvault :=
-  if negb (pv_bh v =? 0) && (pv_bt v <? now)
-  then mkPV (pv_debt v) (pv_intacc v) (pv_tracker v) (pv_bh v) (pv_bt v) (pv_cov v) true else v.
 
 (* WasmUpdatePairsVault.  `ExtPairVaultData.StabilityFee != updatePairVault.StabilityFee` compares two
    sdk.Dec STRUCTS, i.e. their *big.Int pointers: the two values never share one, the test is always
@@ -117,7 +113,7 @@ Definition set_fee (calc : Z -> Z -> Z -> Z -> outcome Z) (s : pstate) (f : Z) :
       end
     else if ps_fee s =? 0 then
       Ok (mkPS (ps_now s) (ps_h s) (ps_wl s) (ps_stable s) f (ps_now s) (ps_h s)
-               (map (taint_vault (ps_now s)) (ps_vaults s)) tchg (ps_intr s), [])
+               (ps_vaults s) tchg (ps_intr s), [])   (* zero -> non-zero: no vault is visited *)
     else if (0 <? ps_fee s) && (0 <? f) then
       match sweep calc (ps_now s) (ps_h s) (ps_fee s) (ps_pbt s) true 0 (ps_vaults s) with
       | None => Panic
@@ -137,7 +133,7 @@ Definition pstep (calc : Z -> Z -> Z -> Z -> outcome Z) (s : pstate) (o : pop) :
       Ok (mkPS (ps_now s + dt) (ps_h s + dh) (ps_wl s) (ps_stable s) (ps_fee s) (ps_pbt s) (ps_pbh s) (ps_vaults s)
                (ps_tchg s) (ps_intr s), [])
   | OCreate d =>
-      Ok (with_vaults s (ps_vaults s ++ [mkPV d 0 None (if ps_fee s =? 0 then 0 else ps_h s) (ps_now s) (ps_now s) false]), [])
+      Ok (with_vaults s (ps_vaults s ++ [mkPV d 0 None (if ps_fee s =? 0 then 0 else ps_h s) (ps_now s) (ps_now s)]), [])
   | OCalc i =>
       match nth_error (ps_vaults s) i with
       | None => Err 9
@@ -155,7 +151,7 @@ Definition pstep (calc : Z -> Z -> Z -> Z -> outcome Z) (s : pstate) (o : pop) :
           | Panic => Panic | Err c => Err c
           | Ok (v', cs) =>
               Ok (with_vaults s (set_nth i (mkPV (pv_debt v' + delta) (pv_intacc v') (pv_tracker v') (ps_h s) (ps_now s)
-                                                 (ps_now s) false) (ps_vaults s)), cs)
+                                                 (ps_now s)) (ps_vaults s)), cs)
           end
       end
   | OSetFee f => set_fee calc s f
@@ -184,10 +180,6 @@ Definition charge_legit (calc : Z -> Z -> Z -> Z -> outcome Z) (s : pstate) (c :
   (ps_fee s = 0 \/ (Z.max (pv_cov (ch_pre c)) (ps_tchg s) <= ch_from c /\ ch_from c <= ps_now s)) /\
   (ch_princ c = pv_debt (ch_pre c) \/ ch_princ c = pv_debt (ch_pre c) + pv_intacc (ch_pre c)) /\
   calc (ps_now s) (ch_from c) (ch_princ c) (ch_rate c) = Ok (ch_amt c).
-
-(* the class of the finding C18-F2: the vault was stamped (created / touched by a message) while the fee
-   was zero, the fee came back in a LATER block, and the vault has not been stamped since *)
-Definition kf_C18_2 (c : charge) : bool := pv_taint (ch_pre c).
 
 (* the executable form judged on the IMPLEMENTATION's observations: [charged] is what one step added to
    InterestAccumulated * 10^18 + tracker of a vault whose debt + interest was [owed] before the step,
